@@ -193,12 +193,16 @@ def generate(tier, seed):
     # 7. profiles
     for p1, p2 in [((1.0, 10.0), (1.0, 20.0)), ((1.0, 5.0), (5.0, 5.0)), ((0.0, 0.0), (3.0, 4.0)), ((2.5, -1.0), (-4.0, 7.5)),
                    ((1e5, 1e5), (1e5 + 3.0, 1e5 - 4.0)), ((1.0, 1.0), (-2.0, -3.0)),
-                   ((2.0, 3.0), (2.0, 3.0)), ((0.0, 0.0), (0.0, 0.0)), ((-7.5, 1e4), (-7.5, 1e4))]:   # incl. coincident end points
+                   ((2.0, 3.0), (2.0, 3.0)), ((0.0, 0.0), (0.0, 0.0)), ((-7.5, 1e4), (-7.5, 1e4)),   # incl. coincident end points
+                   ((1.0, 20.0), (1.0, 10.0)), ((5.0, 5.0), (1.0, 5.0)), ((-2.0, -3.0), (-2.0, -30.5)), ((0.0, 7.0), (-12.25, 7.0)),  # axis-aligned, running south / west
+                   ((4.0, 3.0), (0.0, 0.0)), ((1.0, -1.0), (-3.0, 2.0))]:   # oblique towards the west
         for size in (1, 2, 3, 5, 11):
             cases.append(core.guarded(lambda: profile_case(vd, p1, p2, size, "profile"), {"fn": "profile_case"}, "profile_case"))
     for i in range(20 if tier == "quick" else 200):
         p1 = (rnd.uniform(-50, 50), rnd.uniform(-50, 50))
         p2 = (rnd.uniform(-50, 50), rnd.uniform(-50, 50))
+        if i % 4 == 0:
+            p2 = (p1[0], p2[1]) if i % 8 else (p2[0], p1[1])     # exactly parallel to an axis, either direction
         cases.append(core.guarded(lambda: profile_case(vd, p1, p2, rnd.randint(1, 12), "profile-random"), {"fn": "profile_case"}, "profile_case"))
     return cases
 
